@@ -108,6 +108,18 @@ class Session:
     def end(self):
         if not self.stopped: self.s.add("stop")
         return self
+    def meta(self):
+        """what to_events needs besides the driver's output (stored in replay files: vcheck --replay runs the script again
+        on the current tree and rebuilds the events from the new output)"""
+        return {"kind": "track_session", "sid": self.sid, "cfg": self.cfg, "tree": self.tree, "nodes": self.nodes, "boot": self.boot,
+                "reboot": self.reboot, "start_line": self.start_line, "start_get": self.start_get, "drain_lines": self.drain_lines, "ev": self.ev}
+
+class SessionView:
+    """a Session rebuilt from Session.meta() (read-only: enough for to_events)"""
+    def __init__(self, m):
+        self.sid = m["sid"]; self.cfg = m["cfg"]; self.tree = [(list(p), list(u)) for p, u in m["tree"]]; self.nodes = m["nodes"]; self.boot = m["boot"]
+        self.reboot = tuple(m["reboot"]) if m.get("reboot") else None
+        self.start_line = m["start_line"]; self.start_get = m["start_get"]; self.drain_lines = m["drain_lines"]; self.ev = m["ev"]
 
 def _t(x): return "~" if x is None else ("%e" if x == "" else x)
 
